@@ -165,7 +165,7 @@ CLAIMED = {
             'run-time generated hypergeometric summators are outside the analysed source.  '
             'High-level calculus routines (findroot, invertlaplace, ...) are outside the property.  Values served from a '
             '(precision, value) cache by functions that no wrapper re-rounds are re-rounded on a hit (B-R11); polyval rounds the '
-            'value of a constant polynomial (B-R8p); exact_nthroot bounds the root by ceil(bc/n) (E-X1).',
+            'value of a constant polynomial (B-R8p); exact_nthroot bounds the root by ceil(bc/n) (E-X1); rs_zeta / rs_z and the Borel fallback of hyper round what they computed under a raised precision (B-R12, two genuine defects repaired).',
             'DESIGN.md section 2, Engine B'),
     'C33': ('D-cache-discipline',
             'static analysis: discovery of all mutated containers + class-specific data-flow rules '
@@ -426,7 +426,7 @@ CLAIMED = {
             'the vector pslq returns has passed the INTEGER test abs(sum(v*xk)) <= (tol*xnorm) >> prec on the '
             'fixed-point input itself (Q-R9), the input is scaled by one common power of two before the conversion '
             '(Q-R10), identify stores a formula only after evaluating it against x (Q-R11), findpoly hands pslq '
-            'powers with guard bits (Q-R12), the string builders return a string on every path (Q-R13).  That PSLQ '
+            'powers with guard bits (Q-R12), the string builders return a string on every path (Q-R13), names of base constants are parenthesised before they are spliced into a formula (Q-R14) and the quadratic attempt cannot raise out of identify (Q-R15).  That PSLQ '
             'FINDS existing relations is numerical and NOT decided.',
             'Assumes sqrt_fixed / to_fixed accurate to one unit of the guard-bit format.',
             'DESIGN.md section 10 (C35)'),
@@ -440,7 +440,7 @@ CLAIMED = {
             'rounds to exactly 53 bits in the requested mode before ldexp, maps the specials, and resolves '
             'overflow by the sign of the number and the size of the exponent; float()/complex() use the context '
             'mode (half-even by default) and convert both parts alike.  That normalize1 rounds to nearest-even is '
-            'C02\'s clause; frexp/ldexp are CPython\'s.',
+            'C02\'s clause; frexp/ldexp are CPython\'s.  Every __float__ / __complex__ of the package (the interval numbers too) passes a rounding mode to to_float (V-R6), and a Python complex operand of an mpf is converted exactly (V-R7); both found as genuine defects and repaired.',
             'Gradual underflow (denormals) is outside what to_float documents and is not decided.',
             'DESIGN.md section 10 (C09)'),
     'C39': ('N-class-domain',
@@ -476,7 +476,7 @@ CLAIMED = {
             'inexact operation (a rounding kernel at finite precision, to_fixed cutting mantissa bits) reach to_str '
             'only when certified by a floor/ceiling enclosure left under equality, a neighbour probe or an exactness '
             'guard (W-R5; found nstr(mpf(\'0.45\'), 1) == \'0.4\' and a wrong last digit for huge exponents, repaired); '
-            'both parts of an mpc are printed with the same arguments.  That bin_to_radix/numeral give the right '
+            'both parts of an mpc are printed with the same arguments; the read-back half runs C07\'s from_str exactness rule (W-R6) and the decimal exponent is printed through numeral (W-R7, repaired: exponents of more than 4300 digits).  That bin_to_radix/numeral give the right '
             'digits of a fixed-point integer is NOT decided.',
             'Trusts the small formula evaluator (int/float arithmetic as in CPython).',
             'DESIGN.md section 10 (C08)'),
